@@ -465,6 +465,14 @@ example : ev (.obj [("xs".toList, .arr [.num (.pos 1)])]) (.obj [("var".toList, 
 example : ev (.obj [("xs".toList, .arr [.null]), ("y".toList, .num (.pos 1))]) (.obj [("var".toList, .str "xs".toList)]) =
     ev (.obj [("xs".toList, .arr [.null]), ("y".toList, .num (.pos 2))]) (.obj [("var".toList, .str "xs".toList)]) := by decide +kernel
 
+-- the hypothesis of `reduce_values`/`reduce_value` (the expression succeeds on every context) is met, e.g., by `{"var": ""}`
+example : ∀ ctx, (run (.obj [("var".toList, .str [])]) ctx).out = .ok (id ctx) := fun ctx => by rw [run_var_self]; rfl
+
+-- hypotheses of `map_first_error`: an element on which the expression is an error
+example : (run (.obj [("+".toList, .arr [.obj [("var".toList, .str [])]])]) (.obj [])).out = .err ∧
+    (∃ y, (run (.obj [("+".toList, .arr [.obj [("var".toList, .str [])]])]) (.num (.pos 1))).out = .ok y) :=
+  ⟨by decide +kernel, ⟨.num (.pos 1), by decide +kernel⟩⟩
+
 -- first failing element: the earlier element's log line is kept, the later element is not evaluated
 example : apply (.obj [("map".toList, .arr [.arr [.num (.pos 1), .obj [], .num (.pos 3)],
       .obj [("log".toList, .obj [("+".toList, .arr [.obj [("var".toList, .str [])]])])]])]) .null =
